@@ -53,6 +53,18 @@ CHECKS = {
     "C11": ("exploration", "forced collection schedules through a guarded statement-boundary hook (none/all/every single boundary/random subsets) with an external-holder audit inside the collector; ThreadSanitizer build with a 50-500 us real timer; in-process evaluator lifecycle loops (TSan, ASan) counting timer threads",
             "Under every schedule explored (exhaustive over single collections up to the cap, sampled beyond) output and status equalled the no-collection run and no collection wiped an object still held by the interpreter; no ThreadSanitizer report with the real timer at thousands of distinct boundaries; timer threads started == exited after every evaluator lifetime.",
             "Schedules = subsets of statement boundaries (the only polling point); TSan sees all synchronisation involved; bounded restatement of 'always stopped'.", "DESIGN.md 3/C11"),
+    "C05": ("translation_validation", "per-program validation of the emitted OpenQASM against the execution that produced it: strict reader for the emitted subset, one-for-one comparison with the traced simulator operations, replay on an independent interpreter with recorded outcomes vs the simulator's final amplitudes, file vs stdout",
+            "Every listing produced was well formed, listed exactly the operations performed in order, and replayed (with the recorded measure/reset outcomes) to the simulator's final state within the printing precision; the .qasm file equalled --emit-qasm.",
+            "Ground truth for 'operations performed' is the guarded simPost trace; reader covers only the emitted subset.", "DESIGN.md 3/C05"),
+    "C06": ("exploration", "trace-stepped state machine: generated access-path programs with deliberate misuse; the model's first operation on a measured qubit must be a located Runtime error with no simulator operation; boundary audit of evaluator vs simulator measured flags",
+            "Every generated sequence behaved as the {active, measured} model predicts: refusals exactly at the first operation on a measured qubit (right line, nothing reached the simulator), never on an active or reset qubit, flags agreed at every statement boundary.",
+            "Error line = line of the built-in call reached (inside helpers); flags audited through the guarded boundary hook.", "DESIGN.md 3/C06"),
+    "C17": ("exploration", "offline conservation checker over recorded histories: per-execution tracked records matched against the scope-exit model, aggregate table = sum of per-shot records, probability arithmetic, shot-count precedence, echo policy (plain build, seeded RNG)",
+            "For every program/configuration explored each scope or owner exit produced exactly one record with the right outcome string, the table equalled the sum of the per-shot records, probabilities were count/total in [0,1] summing to 1, @shots beat --shots and echo followed the documented policy.",
+            "Outcomes adopted from the trace; '--echo=none' treated as explicit suppression.", "DESIGN.md 3/C17"),
+    "C18": ("exploration", "differential over recorded event streams: shot k of one multi-shot process vs a fresh process seeded identically (guarded per-execution reseeding), plus in-process re-execution of one Program analysed once and twice (ASan)",
+            "Every shot of every multi-shot run explored produced the same simulator operations, allocations, echo lines, tracked records, boundary count and error as a fresh single-shot process with the same draws; analysing twice changed nothing.",
+            "Reseeding hook gives identical draws; elapsed time and warnings ignored.", "DESIGN.md 3/C18"),
 }
 
 NOT_YET = {}
